@@ -28,6 +28,7 @@ struct AllocState {
   long count = 0;             // allocations seen while counting
   long fail_at = -1;          // index of the allocation that fails (-1: none)
   long fail_at2 = -1;         // a second, later index that fails too (pairs of failures)
+  long fail_at3 = -1;         // and a third (triples)
   bool fail_from = false;     // if set, every allocation with index >= fail_at fails
   long fired = 0;             // how many allocations were made to fail
 };
@@ -385,6 +386,18 @@ template <class X> struct is_raw_vector<X, std::void_t<decltype(std::declval<con
   : std::integral_constant<bool, !std::is_same<decltype(std::declval<const X&>().MagnitudeSquared()), void>::value> {};
 template <class, class = void> struct has_Value_early : std::false_type {};
 template <class X> struct has_Value_early<X, std::void_t<decltype(std::declval<const X&>().Value())>> : std::true_type {};
+
+// Optimised build: operands do not sit at the start of a 16-byte aligned local but behind a pad of their own alignment
+// (a double or a Vector<double> at an address that is 8 modulo 16, a float quantity at 4 modulo 16) -- where a class
+// member, the second element of an array or of a std::vector would be.
+template <class X>
+struct Off {
+  alignas(16) unsigned char pad[(alignof(X) < 16) ? alignof(X) : 16];
+  X value;
+  explicit Off(X v) : pad(), value(std::move(v)) {}
+  template <class... A>
+  explicit Off(std::in_place_t, A&&... a) : pad(), value(std::forward<A>(a)...) {}
+};
 
 template <class X>
 inline X make(Ctx& c) {
